@@ -85,7 +85,7 @@ Definition mstep (st : mstate) (o : pop) : mstate :=
       | _ =>
           if spec then MState (regs st) w (rets st ++ [None])
           else
-            let '(p2, w2, raised) := settle_loop 16 w p1 nr in
+            let '(p2, w2, raised) := settle_loop 100 w p1 nr in
             if raised then MState (setnth (regs st) a p2) w2 (rets st ++ [None])
             else let '(r, w3) := sum_terms false w2 (coeffs p2) (const p2) in
                  MState (setnth (regs st) a p2) w3 (rets st ++ [r])
